@@ -177,6 +177,8 @@ def _findall(
             child_node = parent_node[child_index]
             if isinstance(child_node, (dict, list)):
                 n0print("*"*30 + " NOT TESTED #1...")
+                if not len(found_xpath_list):
+                    found_xpath_list = [""]
                 found_xpath_list[-1] += f"[{child_index}]"
                 return _findall(
                                 child_node,
